@@ -14,8 +14,8 @@ def sha(b):
     return hashlib.sha256(b).hexdigest()
 
 
-COLORS = ["red", "#00ff00", "rgb(1,2,3)", "blue", "none", "transparent", "hsl(10,20%,30%)"]
-FONTS = ["Arial", "monospace", "Fira Code, monospace", "Times New Roman"]
+COLORS = ["red", "#00ff00", "rgb(1,2,3)", "blue", "none", "transparent", "hsl(10,20%,30%)", " red", "blue ", "  #abc  "]   # values are taken verbatim
+FONTS = ["Arial", "monospace", "Fira Code, monospace", "Times New Roman", " Arial", "serif "]
 
 
 def option_values(r, opts, fault):
@@ -38,19 +38,19 @@ def option_values(r, opts, fault):
             v = str(n)
             st["font_size"] = n
             if bad == o:
-                v = r.choice(["abc", "-3", "1.5", "", "12px"])
+                v = r.choice(["abc", "-3", "1.5", "", "12px", " 12", "12 ", "\t7"])
         elif o == "stroke-width":
             x = r.choice([0.5, 1.0, 1.25, 2.0, 3.75, 10.0])
             v = repr(x)
             st["stroke_width"] = x
             if bad == o:
-                v = r.choice(["wide", "1,5", "2px", ""])
+                v = r.choice(["wide", "1,5", "2px", "", " 2", "2.5 "])
         else:
             x = r.choice([0.5, 1.0, 1.5, 2.0, 4.5])
             v = repr(x)
             st["scale"] = 8.0 * x
             if bad == o:
-                v = r.choice(["big", "1x", "", "2,0"])
+                v = r.choice(["big", "1x", "", "2,0", "2 ", " 1.5"])
         argv += ["--" + o, v]
     return argv, st
 
